@@ -149,6 +149,14 @@ theorem walk_eq (M : MCtx) (S : SCtx) (hr : M.repl = S.repl) (hp : M.plist = S.p
       | some ks =>
         simp only [walkList_eq M S hr hp hc hj fuel (depth + 1) .nil m ks]
         cases serialList S fuel (depth + 1) m ks <;> simp [WR.map, gvOf]
+    | objP own ne proto =>
+      cases hpl : S.plist with
+      | none =>
+        simp only [walkObj_eq M S hr hp hc hj fuel (depth + 1) .nil own]
+        cases serialObj S fuel (depth + 1) own <;> simp [WR.map, gvOf]
+      | some ks =>
+        simp only [walkList_eq M S hr hp hc hj fuel (depth + 1) .nil (SMs.app own (SMs.app ne proto)) ks]
+        cases serialList S fuel (depth + 1) (SMs.app own (SMs.app ne proto)) ks <;> simp [WR.map, gvOf]
     | num x =>
       cases hf : isFiniteF x <;> simp [WR.map, gvOf, walkNum_nonfinite, hf]
     | back k => by_cases hk : k < depth <;> simp [hk, WR.map, gvOf, gvOfM]
